@@ -116,6 +116,41 @@ def run(ck: Check):
                 cases.append(f"xlat {tcs} {enc_opt(a)} {enc_opt(b)}")
                 impl.append(out)
                 ck.count("xlat")
+    # the operation is about POSITIONS, not contents: every class x parts made of UTF-8 continuation / lead bytes, bytes
+    # that are not UTF-8, quotes and backslashes, line breaks, brackets, marker words, multi-byte atoms, equal atoms
+    palettes = [[bytes([0x80 + 7 * i]) for i in range(9)], [b"\xc3", b"\xa9", b"b", b"\xe2", b"\x82", b"\xac", b"c", b"\xf0", b"\x9f"],
+                [b"'", b"\\", b'"', b"\\'", b"`", b"\\\\", b"'", b'"', b"\\"], [b"\n", b"\r", b"\r\n", b"\n", b"\x0c", b"\xc2\x85", b"\n", b"\r", b"\n"],
+                [b"{", b"}", b"(", b")", b"[", b"]", b"{\n", b"}\n", b" "], [b"DDBEGIN\n", b"DDEND\n", b"x", b"DDBEGIN", b"DDEND", b"\xff", b"\xfe", b"\xef\xbb\xbf", b"\x00"],
+                [b"a"] * 9, [b"<a", b" b=c", b">", b"<", b" d", b"/>", b"=", b'"e"', b">"]]
+    Lc = 4 if ck.tier == "quick" else 6
+    for cls in classes:
+        for pal in palettes:
+            for n in range(1, Lc + 1):
+                for red in itertools.product([False, True], repeat=n):
+                    red = list(red)
+                    parts = pal[:n]
+                    k = sum(red)
+                    for a in range(-k - 2, k + 3):
+                        for b in range(-k - 2, k + 3):
+                            lo, hi = clampi(k, a), clampi(k, b)
+                            if lo > hi:
+                                continue
+                            t = cls()
+                            t.before, t.after, t.parts, t.reducible = b"<", b">", list(parts), list(red)
+                            cp = t.copy()
+                            ck.count("contents")
+                            ck.nontrivial(("contents", cls.__name__, tuple(parts), tuple(red), a, b))
+                            try:
+                                cp.rmslice(a, b)
+                                got = (cp.parts, cp.reducible, len(cp), type(cp) is cls)
+                            except Exception as e:  # pylint: disable=broad-except
+                                got = type(e).__name__
+                            ep, er = spec_rm(parts, red, lo, hi)
+                            if got != (ep, er, k - (hi - lo), True) or t.parts != parts or t.reducible != red:
+                                ck.violation(f"{cls.__name__}: rmslice({a},{b}) on parts {parts!r} flags {enc_bools(red)} gave {got!r}; "
+                                             f"the property requires {ep!r} {enc_bools(er)} len {k - (hi - lo)} (source now {t.parts!r})",
+                                             {"op": "rmslice", "class": cls.__name__, "parts": [p.hex() for p in parts],
+                                              "reducible": red, "a": a, "b": b})
     # len() queried, then the lists edited IN PLACE (append / flag flip / pop), then rmslice: no stale state
     r2 = rng("c07-inplace")
     for _ in range(300 if ck.tier == "quick" else 3000):
